@@ -5,7 +5,7 @@ configured in a client EncryptedExtensions that the hooked server reads into its
 import nego_common as nc, vlib
 
 def run(ctx):
-    scns, events, rej, unadv, mc = nc.run_nego(ctx, "c22", shards=6, extra_ids=[])
+    scns, events, rej, unadv, mc = nc.run_nego(ctx, "c22", shards=6, extra_ids=[], subset=lambda xs: xs + [dict(x, alps_first=True) for x in xs if x["ver"] == 772])
     for r in rej:
         d = nc.sig_detail(r["detail"])
         s = r["scn"]
